@@ -201,10 +201,12 @@ class Decoder:
       self._control(b1, b2)
       return
     # printable pair (b1 >= 0x20; 0x01..0x0F are XDS, never generated on field 1)
-    self.last_ctrl = None
     if self.channel != 1 or b1 < 0x20:
+      if DEV_DUP_KEEPS_ACROSS_SKIPPED not in self.dev:
+        self.last_ctrl = None
       self.acted = "other-channel"
       return
+    self.last_ctrl = None
     self._put(std_char(b1))
     if b2 >= 0x20:
       self._put(std_char(b2))
